@@ -252,6 +252,13 @@ impl Property for C12 {
             }
         };
 
+        for v in obs.reference.iter().chain(obs.batch.iter()) {
+            v.iter().for_each(|x| stats.observe(*x as u64));
+        }
+        if let Some((l, a)) = obs.validate {
+            stats.observe(l.to_bits() as u64);
+            stats.observe(a.to_bits() as u64);
+        }
         // predict == last activation of forward
         for (i, f) in obs.forward_last.iter().enumerate() {
             if *f != obs.reference[i] {
